@@ -386,7 +386,9 @@ def run_call(node, reg, x_py, out_py, use_out):
         i = reg.index_of(r)
         ident = 'None' if i is None else '(Some %d%%nat)' % i
         return 'IElem %s %s' % (ident, oqs(np.asarray(r).ravel())), post
-    return 'ISc %s' % C.oq(float(r)), post
+    if isinstance(r, (float, int, complex, np.floating, np.integer)):
+        return 'ISc %s' % C.oq(float(np.real(r))), post
+    return 'IOther', post
 
 
 def make_case(rng, depth, big, mode):
@@ -1089,6 +1091,18 @@ def probe_operator(op, kind, rng, cls, label, sizeclass, setup):
             P(_flat(x).tobytes() == before, 'reject-range', 'out from another space raises OpRangeError, x untouched')
         except Exception as e:      # noqa
             P(False, 'reject-range', 'out from another space raised %s instead of OpRangeError' % type(e).__name__)
+        if hasattr(ran, 'shape') and hasattr(ran, 'dtype') and _is_float(np.dtype(ran.dtype)):
+            try:
+                foreign = odl.tensor_space(ran.shape, dtype=ran.dtype, weighting=3.7).element(
+                    np.zeros(ran.shape, dtype=ran.dtype))
+                before = _flat(x).tobytes()
+                op(x, out=foreign)
+                P(False, 'reject-range-sameshape', 'out of the same shape from another space must be rejected')
+            except OpRangeError:
+                P(_flat(x).tobytes() == before and not _flat(foreign).any(), 'reject-range-sameshape',
+                  'out of the same shape from another space raises OpRangeError; neither x nor out touched')
+            except Exception as e:      # noqa
+                P(False, 'reject-range-sameshape', 'foreign out raised %s instead of OpRangeError' % type(e).__name__)
     try:
         op('not an element')
         P(False, 'reject-domain', 'a string argument must be rejected')
